@@ -24,7 +24,12 @@ def _scenes():
           "sources": [{"pos": [3, 3, 5], "pol": 1}],
           "detectors": [{"kind": "poynting", "name": "pf", "lo": [1, 1, 6], "hi": [5, 5, 7], "axis": 2, "switch": {"fixed_on_time_steps": [1, 2, 5]}},
                         {"kind": "field", "name": "fd", "lo": [2, 2, 4], "hi": [4, 4, 6], "reduce": True}]}
-    return [("periodic-lossy", s1), ("pml-pec", s2)]
+    # dispersive slab: the ADE polarisation (current AND previous) is time-dependent state that reset must clear
+    s3 = {"shape": [6, 6, 6], "bounds": {"min_z": "pec", "max_z": "pmc"}, "sources": [{"pos": [3, 3, 3], "pol": 2}],
+          "slab": {"lo": [0, 0, 2], "hi": [6, 6, 5], "eps": 2.0, "lorentz": {"f": 2e15, "g": 1e13, "de": 1.5}},
+          "detectors": [{"kind": "energy", "name": "en", "lo": [1, 1, 1], "hi": [5, 5, 5], "switch": {"interval": 2}},
+                        {"kind": "field", "name": "fd", "lo": [2, 2, 2], "hi": [4, 4, 4]}]}
+    return [("periodic-lossy", s1), ("pml-pec", s2), ("dispersive", s3)]
 
 
 def gen_cases(ctx):
